@@ -240,6 +240,8 @@ def scenario_module(rng, tok: Tok):
             m.result = ("int", [tok.line(rng, "r")])
         return m
 
+    dc_doc = fm([], False)
+    dc_last = fm(["other"])
     a_run, b_run, f_run = fm(["m0"]), fm(["m0"]), fm(["m0"])
     c_doc, d_doc = fm(["c0"], False), fm(["c0"], False)
     c_run, d_run = fm(["m0"]), fm(["m0"])
@@ -253,6 +255,8 @@ def scenario_module(rng, tok: Tok):
         "ScnThird/run": {"kind": "method", "model": c_run},
         "ScnFourth": {"kind": "class", "model": d_doc, "init": DocModel(), "cparams": ["c0"]},
         "ScnFourth/run": {"kind": "method", "model": d_run},
+        "ScnOrdered": {"kind": "class", "model": dc_doc, "init": DocModel(), "cparams": []},
+        "ScnOrdered/compare_with": {"kind": "method", "model": dc_last},
         "<module>": {"kind": "module", "model": DocModel()},
     }
 
@@ -264,7 +268,12 @@ def scenario_module(rng, tok: Tok):
             f"class ScnFirst:\n{meth(a_run, '    ')}\n\nclass ScnSecond:\n{meth(b_run, '    ')}\n\n"
             f"def run(m0: int) -> int:\n{pydoc(f_run.render(style), '    ')}    return 1\n\n\n"
             f"class ScnThird:\n{pydoc(c_doc.render(style), '    ')}\n    def __init__(self, c0: int) -> None:\n        self.v = c0\n\n{meth(c_run, '    ')}\n\n"
-            f"class ScnFourth:\n{pydoc(d_doc.render(style), '    ')}\n    def __init__(self, c0: int) -> None:\n        self.v = c0\n\n{meth(d_run, '    ')}\n"
+            f"class ScnFourth:\n{pydoc(d_doc.render(style), '    ')}\n    def __init__(self, c0: int) -> None:\n        self.v = c0\n\n{meth(d_run, '    ')}\n\n"
+            # the comparison methods of an ordered dataclass exist for the type checker only (no source, no docstring);
+            # they are analysed right after the last documented method
+            f"import dataclasses\n\n\n@dataclasses.dataclass(order=True)\nclass ScnOrdered:\n{pydoc(dc_doc.render(style), '    ')}\n    size: int = 0\n\n"
+            f"    def __init__(self, size: int = 0) -> None:\n        self.size = size\n\n"
+            f"    def compare_with(self, other: int) -> int:\n{pydoc(dc_last.render(style), '        ')}        return other\n"
         )
 
     return render, gt
